@@ -228,3 +228,14 @@ func VFSetSecsBeforeDump(n int64) { SecsBeforeDump = n }
 // VFGCHistoryLen and VFGCState give access to the per-bucket GC records.
 func VFGCHistoryLen(s *HStore, bucket int) int   { return len(s.buckets[bucket].GCHistory) }
 func VFGCState(s *HStore, bucket, i int) GCState { return s.buckets[bucket].GCHistory[i] }
+
+// VFSetMergeChan mimics what HStore.HintDumper does when it starts: with the
+// channel set, a writer that fills a hint split signals the dumper instead of
+// dumping the split itself.
+func VFSetMergeChan(on bool) {
+	if on {
+		mergeChan = make(chan int, 2)
+	} else {
+		mergeChan = nil
+	}
+}
